@@ -16,6 +16,7 @@ import (
 	"strings"
 	"time"
 
+	"github.com/btcsuite/btcd/address/v2"
 	"github.com/btcsuite/btcd/btcutil/v2"
 	"github.com/btcsuite/btcd/btcutil/v2/gcs"
 	"github.com/btcsuite/btcd/btcutil/v2/gcs/builder"
@@ -43,6 +44,7 @@ type blk struct {
 	trueFid int
 	elems   [][]byte // everything the true filter commits to
 	omitScr []byte   // an output script of a non-coinbase tx
+	txOuts  [][][]byte // ordinary (non-OP_RETURN) output scripts of each non-coinbase tx
 	opret   []byte   // an OP_RETURN script of a non-coinbase tx (or nil)
 	vars    map[string]int
 }
@@ -277,17 +279,36 @@ func (w *world) newBlock(prev *blk) *blk {
 		for j := 0; j < nin; j++ {
 			var ph chainhash.Hash
 			w.r.Read(ph[:])
-			tx.AddTxIn(wire.NewTxIn(wire.NewOutPoint(&ph, uint32(j)), nil, nil))
-			b.prevScr = append(b.prevScr, w.randScript(w.r.Intn(2)))
+			if w.r.Intn(3) == 0 {
+				// a P2WPKH spend: the witness carries the public key, from which
+				// VerifyBasicBlockFilter derives the script being spent
+				pk := make([]byte, 33)
+				w.r.Read(pk)
+				pk[0] = 0x02
+				sig := make([]byte, 71)
+				w.r.Read(sig)
+				tx.AddTxIn(wire.NewTxIn(wire.NewOutPoint(&ph, uint32(j)), nil, wire.TxWitness{sig, pk}))
+				b.prevScr = append(b.prevScr, append([]byte{0x00, 0x14}, address.Hash160(pk)...))
+				w.t.Hit("block.witness-input")
+			} else {
+				tx.AddTxIn(wire.NewTxIn(wire.NewOutPoint(&ph, uint32(j)), nil, nil))
+				b.prevScr = append(b.prevScr, w.randScript(w.r.Intn(2)))
+			}
 		}
 		nout := 1 + w.r.Intn(3)
+		if i == 0 && w.r.Intn(3) > 0 {
+			nout = 2 + w.r.Intn(2)
+		}
+		var outs [][]byte
 		for j := 0; j < nout; j++ {
 			s := w.randScript(w.r.Intn(2))
 			if b.omitScr == nil {
 				b.omitScr = s
 			}
+			outs = append(outs, s)
 			tx.AddTxOut(wire.NewTxOut(int64(1000+j), s))
 		}
+		b.txOuts = append(b.txOuts, outs)
 		if w.r.Intn(3) == 0 {
 			s := w.randScript(2)
 			b.opret = s
@@ -342,13 +363,37 @@ func (w *world) variant(b *blk, kind string) int {
 		return id
 	}
 	var el [][]byte
-	switch kind {
-	case "omit":
+	without := func(drop [][]byte) {
 		for _, e := range b.elems {
-			if string(e) != string(b.omitScr) {
+			keep := true
+			for _, d := range drop {
+				if string(e) == string(d) {
+					keep = false
+				}
+			}
+			if keep {
 				el = append(el, e)
 			}
 		}
+	}
+	switch kind {
+	case "omit", "omit-some":
+		// a strict, non-empty subset of the outputs of one transaction
+		for _, outs := range b.txOuts {
+			if len(outs) >= 2 {
+				without(outs[:len(outs)-1])
+				break
+			}
+		}
+		if el == nil {
+			return w.variant(b, "omit-all")
+		}
+	case "omit-all":
+		// every output of one transaction
+		without(b.txOuts[0])
+	case "omit-in":
+		// the script spent by one input (not one of the three provable ways)
+		without(b.prevScr[:1])
 	case "extra":
 		el = append(append(el, b.elems...), w.randScript(0))
 	case "opret":
@@ -362,6 +407,26 @@ func (w *world) variant(b *blk, kind string) int {
 	id := w.build(b, el)
 	b.vars[kind] = id
 	return id
+}
+
+// gtRow is the ground truth about a filter, established without the code
+// under test: "o" when some ordinary output script of a non-coinbase
+// transaction of the block is not a member of the filter, "k" otherwise.
+func (w *world) gtRow(fid int, b *blk) string {
+	f := w.filters[fid]
+	if f == nil {
+		return "o"
+	}
+	key := builder.DeriveKey(&b.hash)
+	for _, outs := range b.txOuts {
+		for _, s := range outs {
+			ok, err := f.Match(key, s)
+			if err != nil || !ok {
+				return "o"
+			}
+		}
+	}
+	return "k"
 }
 
 // verifyRow runs the real VerifyBasicBlockFilter.
